@@ -84,12 +84,25 @@ def check_colons_present(rep, text):
             return
 
 
-def check_colons_absent(rep, text):
-    a = pytrs.PLSSDesc(text)
-    c = pytrs.PLSSDesc(text, config='sec_colon_cautious')
-    q = pytrs.PLSSDesc(text, config='sec_colon_required')
+def check_colons_absent(rep, text, order=0):
+    # the three modes meet the text in varying order (the first parse of a text in a process must not decide the others),
+    # each mode twice
+    made = {}
+    for mode in [('d', 'c', 'q'), ('c', 'q', 'd'), ('q', 'c', 'd'), ('c', 'd', 'q')][order % 4]:
+        cfg = {'d': None, 'c': 'sec_colon_cautious', 'q': 'sec_colon_required'}[mode]
+        made[mode] = pytrs.PLSSDesc(text, config=cfg)
+    a, c, q = made['d'], made['c'], made['q']
+    c2 = pytrs.PLSSDesc(text, config='sec_colon_cautious')
+    q2 = pytrs.PLSSDesc(text)
+    q2.parse(sec_colon_required=True)
     why = None
-    if tr(c) != tr(a):
+    if (tr(c2), c2.w_flags) != (tr(c), c.w_flags):
+        why = 'a second sec_colon_cautious parse of the same text differs from the first'
+    elif tr(q2) != tr(q):
+        why = 'parse(sec_colon_required=True) differs from config sec_colon_required on the same text'
+    if why:
+        pass
+    elif tr(c) != tr(a):
         why = 'sec_colon_cautious changes the tracts'
     elif not any(f.startswith('pulled_sec_without_colon') for f in c.w_flags):
         why = 'sec_colon_cautious did not warn'
@@ -188,7 +201,7 @@ def run(ctx):
         safely(rep, 'colons_present', check_colons_present, t2)
         t3 = t2.replace(':', '')
         # removing the colon after the Twp/Rge spelling 'T..: ' is harmless; sections now have none
-        safely(rep, 'colons_absent', check_colons_absent, t3)
+        safely(rep, 'colons_absent', check_colons_absent, t3, i)
         rep.count(2)
         rep.nontrivial((t3, 'colons'))
         items.append(descs.corr_item(t3, cfg='sec_colon_cautious'))
